@@ -2,12 +2,11 @@
    Only statements, each closed by [exact], each followed by Print Assumptions.
    [exec] is the structured big-step definition, [parse] mirrors procedures.Parse/ConvertStmt, [run]/[call] mirror
    procedures.Call/execOp (Lang/C24Proc.v).
-   NOT proved (see props/C24.json "partial"): the general compiler-correctness theorem
-     forall s well-labelled, call s = exec s
-   -- it is false of the faithful model (two refutations below); the guarded version is future work. *)
+   The unguarded compiler-correctness statement is false of the faithful model: each [_refuted] theorem below documents
+   one construct the guard of [C24_guarded_compiler_correct] excludes. *)
 From Coq Require Import List ZArith NArith Bool.
 Import ListNotations.
-From GMS Require Import Lang.C24Proc Lang.C24ProcProofs.
+From GMS Require Import Lang.C24Proc Lang.C24ProcProofs Lang.C24Sim Lang.C24Equiv.
 Open Scope Z_scope.
 
 (* pc_in_bounds (all operation lists, all states whose registered handlers carry a non-negative DECLARE counter [hok],
@@ -82,6 +81,50 @@ Example C24_loop_block_agreement_nonvacuous :
     /\ length (scopes st2) = 1%nat.
 Proof. exact loop_block_agrees. Qed.
 Print Assumptions C24_loop_block_agreement_nonvacuous.
+
+(* REPEAT leaves the loop when UNTIL evaluates to NULL (definition: @u0 = 3, machine: @u0 = 1) *)
+Theorem C24_repeat_until_null_refuted :
+  (exists st, exec 40 until_null_prog (init_state [] []) = (ONormal, st) /\ assocN 0%N (users st) = Some (Some 3))
+  /\ (exists st, call until_null_prog 200 [] [] = MDone st /\ assocN 0%N (users st) = Some (Some 1)).
+Proof. exact until_null_leaves_loop. Qed.
+Print Assumptions C24_repeat_until_null_refuted.
+
+(* ---------- guarded compiler correctness ----------
+   [guard p]: p is built from blocks (unlabelled), DECLARE, SET, SET @u, IF (whose ELSE branch does not end with a block),
+   WHILE, REPEAT (UNTIL syntactically non-NULL, not a target of ITERATE), LOOP (non-empty body not starting with a
+   jump), LEAVE / ITERATE of enclosing loops only; no handlers; loop labels pairwise distinct; no labelled LOOP / REPEAT
+   inside a REPEAT body.  For such p: whenever the structured definition terminates normally, the compiled procedure
+   (procedures.Parse + the interpreter) terminates too and ends in exactly the same state, whatever fuel lets it finish.
+   (Not proved: that the definition terminates whenever the machine does.) *)
+Theorem C24_guarded_compiler_correct : forall p, guard p ->
+  forall ps us f st', exec f p (init_state ps us) = (ONormal, st') ->
+  (exists fuel, call p fuel ps us = MDone st') /\ (forall fuel r, call p fuel ps us = MDone r -> r = st').
+Proof. exact guarded_compiler_correct. Qed.
+Print Assumptions C24_guarded_compiler_correct.
+
+(* the simulation behind it, for every guarded statement placed anywhere in a program: normal completion reaches the end
+   of its code; LEAVE / ITERATE arrive at a Goto whose remaining walk performs the pops of the blocks being left *)
+Theorem C24_forward_simulation : forall f, P1 f /\ P2 f.
+Proof. exact sim_all. Qed.
+Print Assumptions C24_forward_simulation.
+
+(* the two-phase compiler with placeholders and the never-popped label stack equals the one-pass compiler under the guard *)
+Theorem C24_parse_is_one_pass_compile : forall p, guard p -> parse p = compile' [] 0 p.
+Proof. exact parse_compile'. Qed.
+Print Assumptions C24_parse_is_one_pass_compile.
+
+(* scope_balance under the guard *)
+Theorem C24_guarded_scope_balance : forall p, guard p ->
+  forall ps us f st', exec f p (init_state ps us) = (ONormal, st') ->
+  forall fuel r, call p fuel ps us = MDone r -> length (scopes r) = 1%nat.
+Proof. exact guarded_scope_balance. Qed.
+Print Assumptions C24_guarded_scope_balance.
+
+(* the guard is satisfiable by programs with nested blocks, shadowing, WHILE with ITERATE and LEAVE, LOOP, REPEAT *)
+Example C24_guard_nonvacuous : guard good_prog /\ guard guard_prog2 /\
+  exists st, exec 80 guard_prog2 (init_state [] []) = (ONormal, st) /\ users st = [(0%N, Some 6); (1%N, Some 3)].
+Proof. exact guard_examples. Qed.
+Print Assumptions C24_guard_nonvacuous.
 
 (* non-vacuity: nested block, WHILE with ITERATE and LEAVE, shadowing -- machine and definition agree, scopes balanced *)
 Example C24_agreement_nonvacuous :
